@@ -117,24 +117,67 @@ def gate_contract(ctx):
     wwidth = w.args[0] if (isinstance(window, Obj) and window.args) else None
     if wwidth is None or not lin_eq(wwidth, Sym("tfaw")):
         ob.refute("window-length", "tFAW window register is %s bits, not tfaw" % (wwidth,), shift[0].loc)
-    # ready may be raised only while fewer than 4 activates are in the window
-    for l in f.drivers(fready):
-        lits = f.guard_lits(l, False)
-        lim = None
-        for a, p in lits:
-            if p and isinstance(a, Op) and a.op == "<" and isinstance(a.args[1], Const):
-                lim = a.args[1].v
-        if lim is None:
-            ob.unknown("tFAW ready driver without a `count < N` guard: %s" % l)
-            continue
-        if lim > 4:
-            ob.refute("faw-threshold", "tFAW gate allows activates while %d are already in the window: %s" % (lim - 1, l), l.loc)
-        if is1(l.value):
-            # must exclude count == lim-1
-            excl = [a for a, p in lits if (not p) and isinstance(a, Op) and a.op == "==" and isinstance(a.args[1], Const)
-                    and a.args[1].v == lim - 1]
-            if not excl:
-                ob.refute("faw-last-slot", "tFAW gate stays ready when the window already holds %d activates: %s" % (lim - 1, l), l.loc)
+    # ready may be raised only while the window (after this cycle's activate) holds fewer than 4 activates: evaluate the drivers of `ready`
+    # for every number N of activates in the window and both values of `valid` (last assignment wins)
+    rds = sorted(f.drivers(fready), key=lambda l_: l_.order)
+    CNT = None
+    bad_shape = None
+    cmpops = {"<": lambda x, y: x < y, "<=": lambda x, y: x <= y, "==": lambda x, y: x == y, "!=": lambda x, y: x != y, ">": lambda x, y: x > y, ">=": lambda x, y: x >= y}
+
+    def lit_val(a, p, n, vld):
+        nonlocal CNT, bad_shape
+        if a is fvalid:
+            r_ = bool(vld)
+        elif isinstance(a, Op) and a.op in cmpops and len(a.args) == 2 and (isinstance(a.args[1], Const) or isinstance(a.args[0], Const)):
+            x, y = a.args
+            flip = isinstance(x, Const)
+            ct, cv = (y, x.v) if flip else (x, y.v)
+            if CNT is None:
+                CNT = ct
+            if key(ct) != key(CNT):
+                bad_shape = "guards compare two different terms (%s, %s)" % (key(ct), key(CNT))
+                return None
+            r_ = cmpops[a.op](cv, n) if flip else cmpops[a.op](n, cv)
+        else:
+            # x == 0 normal form of a comparison result, or the counter itself as a truth value
+            bad_shape = "guard literal %s is neither a comparison of the activate count with a constant nor `valid`" % key(a)
+            return None
+        return r_ if p else (not r_)
+    for n in range(0, 7):
+        for vld in (0, 1):
+            win = None
+            for l in rds:
+                vals = [lit_val(a, p, n, vld) for a, p in f.guard_lits(l, False)]
+                if any(x is None for x in vals):
+                    win = "?"
+                    break
+                if all(vals):
+                    win = l
+            if win == "?":
+                break
+            if win is None:
+                continue
+            if is1(win.value):
+                newready = 1
+            elif is0(win.value):
+                newready = 0
+            elif key(win.value) == "~" + key(fvalid):
+                newready = 1 - vld
+            elif key(win.value) == key(fvalid):
+                newready = vld
+            else:
+                bad_shape = "ready is assigned %s" % key(win.value)
+                break
+            if newready and n + vld > 3:
+                ob.refute("faw-last-slot" if n + vld == 4 else "faw-threshold", "tFAW gate: with %d activates in the window and valid=%d, `%s` leaves ready at 1 - a fifth "
+                          "activate can be accepted inside the window" % (n, vld, win), win.loc)
+        if bad_shape:
+            break
+    ob.instance("tFAW ready drivers evaluated for 0..6 activates in the window", [str(l) for l in rds])
+    if bad_shape:
+        ob.unknown("tFAW ready drivers not evaluable: %s" % bad_shape)
+    if CNT is not None and not any("window" in s_ or key(window) in s_ for s_ in support(deref(f, CNT))):
+        ob.refute("faw-count-source", "the term compared in the tFAW gate (%s) does not depend on the activate window %s" % (key(CNT), key(window)), rds[0].loc)
     cnt = [l for l in f.leaves if l.kind == "assign" and l.domain == "comb" and isinstance(l.value, Op) and l.value.op in ("reduce", "sum")]
     rng_ok = any("range(tfaw)" in str(l.value).replace("call(range, tfaw)", "range(tfaw)") or "range(tfaw)" in str(l.value) for l in cnt)
     if not ob.need(bool(cnt) and rng_ok, "tFAW count is not the sum over range(tfaw) of the window"):
@@ -423,7 +466,7 @@ def gate_params(ctx):
                 seen["tWTP"] = 1
             elif sup_has(arg, "tWTR"):
                 a = arg
-                if isinstance(a, Op) and a.op == "ifexp":
+                if isinstance(a, Op) and a.op in ("ifexp", "phi"):
                     c, t, f = a.args
                     if sup_has(c, "tCCD") and is0(f):
                         ctx.assume("tWTR gate parameter is written `x + tCCD if tCCD is not None else 0`: analysed for tCCD not None "
